@@ -4,6 +4,7 @@ proof:           Props/C18.v (metadata_sound: decoding the reference rendering o
 correspondence:  the extracted reader model vs the real reader (metadata accessors included) on every generated file
 oracle:          Mp4Reader::metadata().title()/year()/poster()/summary() on files rendered by the reference renderer from an abstract tag set, compared with that tag set
 """
+import copy
 import itertools
 import random
 
@@ -104,6 +105,25 @@ def cases(rng, tier):
     for i, (dt, pl) in enumerate(((0, b"\x07\xe8"), (0, b"\0\0\x07\xe8\0"), (21, b"\0\0\x07\xe8"), (13, b"\0\0\x07\xe8"), (0, b""), (0, b"\x07"), (0, b"\0\x07\xe8"),
                                  (21, b""), (13, b""), (0, b"\xff\xff\xff\xff"), (0, b"\0" * 8))):
         out.append(("year_bin_%d" % i, movie_with(isogen.udta([isogen.meta([isogen.ilst([isogen.ilst_item(isogen.YEAR, dt, pl)])])])), None))
+    # text values with NUL characters (U+0000 is a legal character of the encoded text: it must come back), leading/trailing spaces, BOM
+    for i, txt in enumerate((b"Big Buck Bunny\0", b"\0", b"\0\0\0", b"a\0b", b"\0lead", b" trail ", "\ufeffbom".encode(), b"2008\0")):
+        u = isogen.udta([isogen.meta([isogen.ilst([isogen.ilst_item(isogen.TITLE, 1, txt), isogen.ilst_item(isogen.SUMMARY, 1, txt), isogen.ilst_item(isogen.YEAR, 1, txt)])])])
+        try:
+            yr = int(txt.decode()) if txt.decode().isdigit() and txt.decode().isascii() else None
+        except Exception:
+            yr = None
+        exp = {"title": txt, "summary": txt}
+        if yr is not None:
+            exp["year"] = yr
+        out.append(("text_nul_%d" % i, movie_with(u), exp if yr is not None else None))
+        out.append(("text_nul_ts_%d" % i, movie_with(isogen.udta([isogen.meta([isogen.ilst([isogen.ilst_item(isogen.TITLE, 1, txt), isogen.ilst_item(isogen.SUMMARY, 1, txt)])])])), {"title": txt, "summary": txt}))
+    # items whose data box is NOT the first child (a 'name' / 'mean' / free box in front of it, as iTunes writes for some items), or is followed by one
+    for i, (before, after) in enumerate((([isogen.Box("name", [isogen.Raw(b"\0\0\0\0title")])], []), ([isogen.Box("free", [])], []), ([isogen.Box("itif", [isogen.Raw(b"\0" * 4)])], []),
+                                         ([], [isogen.Box("name", [isogen.Raw(b"\0\0\0\0x")])]), ([isogen.Box("mean", [isogen.Raw(b"\0\0\0\0com.apple")]), isogen.Box("name", [isogen.Raw(b"\0\0\0\0n")])], []))):
+        def it(code, dt, pl):
+            return isogen.Box(code, list(copy.deepcopy(before)) + [isogen.data_box(dt, pl)] + list(copy.deepcopy(after)))
+        u = isogen.udta([isogen.meta([isogen.ilst([it(isogen.TITLE, 1, b"T"), it(isogen.YEAR, 0, (2011).to_bytes(4, "big")), it(isogen.POSTER, 13, b"\xff\xd8"), it(isogen.SUMMARY, 1, b"S")])])])
+        out.append(("item_children_%d" % i, movie_with(u), {"title": b"T", "year": 2011, "poster": b"\xff\xd8", "summary": b"S"}))
     out.append(("dup_title", movie_with(isogen.udta([isogen.meta([isogen.ilst([isogen.ilst_item(isogen.TITLE, 1, b"first"), isogen.ilst_item(isogen.TITLE, 1, b"second")])])])), None))
     out.append(("no_udta", movie_with(None), {}))
     out.append(("udta_no_meta", movie_with(isogen.udta([isogen.Box("free", [])])), {}))
